@@ -43,7 +43,25 @@ type c07monitor struct {
 	recNodes int
 	diffMemo map[string][2]bool
 	conflict []string
+	// objects that a plain (un-memoized) terminal parser returned more than once: nothing in the unchanged library shares
+	// those, so a later change of one is never "RightTrim moved its own operand" (K1) but a result somebody else holds
+	leafShared map[string]bool
 }
+
+// c07graph: a built parser graph with its probes, used for all inputs of one grammar (half of the grammars): the
+// probes write into whatever monitor is current
+type c07graph struct {
+	g        *gram.Grammar
+	memo     string
+	b        *gram.Built
+	gd       *gram.Guard
+	m        *c07monitor
+	base     int
+	leafSeen map[string]*c07monitor // identity of every node a terminal returned -> the monitor of the parse it was returned in
+	leafKeep []parsley.Node         // keeps them alive, so that an address is never reused while its identity is on record
+}
+
+var c07cache *c07graph
 
 type c07snap struct {
 	expr string
@@ -200,7 +218,7 @@ func (m *c07monitor) diff0(r *c07rec, n parsley.Node, inTouchedList bool, depth 
 		}
 		if r.rpos != now.rpos {
 			changed = true
-			if !(m.touched[r.ident] && r.ident == now.ident && m.wsOnly(r.rpos, now.rpos)) {
+			if !(m.touched[r.ident] && !m.leafShared[r.ident] && r.ident == now.ident && m.wsOnly(r.rpos, now.rpos)) {
 				k1 = false
 			}
 		}
@@ -293,17 +311,14 @@ var c07previous struct {
 	desc  map[string]any
 }
 
-func c07case(c GCase, a *run.Acc) {
-	if !a.Begin() {
-		return
-	}
-	a.Count("cases", 1)
-	env := gram.NewEnvAt(c.In, c.Before())
-	gd := gram.NewGuard(env.Base)
+func c07build(c GCase) *c07graph {
+	gr := &c07graph{g: c.G, memo: fmt.Sprint(c.MemoExpr), leafSeen: map[string]*c07monitor{}}
+	gd := gram.NewGuard(0)
 	gd.MaxEvents, gd.MaxCalls, gd.MaxList = 60000, 60000, 60
 	gd.NoAssert = true
-	m := &c07monitor{base: env.Base, in: c.In, touched: map[string]bool{}, complete: map[[2]int]parsley.Node{}}
+	gr.gd = gd
 	snapshot := func(label string, pos parsley.Pos, n parsley.Node) {
+		m := gr.m
 		if n == nil {
 			return
 		}
@@ -311,7 +326,7 @@ func c07case(c GCase, a *run.Acc) {
 			m.dropped++
 			return
 		}
-		m.snaps = append(m.snaps, c07snap{expr: label, pos: int(pos) - env.Base, node: n, full: m.str(n, false), rec: m.recordTop(n)})
+		m.snaps = append(m.snaps, c07snap{expr: label, pos: int(pos) - gr.base, node: n, full: m.str(n, false), rec: m.recordTop(n)})
 	}
 	// parents: which expressions are operands of a RightTrim
 	rtrimOperand := map[int]bool{}
@@ -323,8 +338,24 @@ func c07case(c GCase, a *run.Acc) {
 		})
 	}
 	h := &gram.Hooks{
-		Inside:   gd.Inside,
-		MemoExpr: c.MemoExpr,
+		Inside:      gd.Inside,
+		MemoExpr:    c.MemoExpr,
+		ShareLeaves: true,
+		Leaf: func(e *gram.Expr, p parsley.Parser) parsley.Parser {
+			return parser.Func(func(ctx *parsley.Context, lrc data.IntMap, pos parsley.Pos) (parsley.Node, data.IntSet, parsley.Error) {
+				n, cp, err := p.Parse(ctx, lrc, pos)
+				if id := nodeIdent(n); id != "" {
+					if first, seen := gr.leafSeen[id]; seen {
+						gr.m.leafShared[id] = true
+						first.leafShared[id] = true
+					} else if len(gr.leafKeep) < 200000 {
+						gr.leafSeen[id] = gr.m
+						gr.leafKeep = append(gr.leafKeep, n)
+					}
+				}
+				return n, cp, err
+			})
+		},
 		Around: func(e *gram.Expr, p parsley.Parser) parsley.Parser {
 			label := fmt.Sprintf("#%d %s", e.ID, e.String())
 			isOperand := rtrimOperand[e.ID]
@@ -333,7 +364,7 @@ func c07case(c GCase, a *run.Acc) {
 				n, cp, err := p.Parse(ctx, lrc, pos)
 				gd.CheckList(n)
 				if isOperand && n != nil {
-					m.touch(n)
+					gr.m.touch(n)
 				}
 				snapshot(label, pos, n)
 				return n, cp, err
@@ -343,6 +374,7 @@ func c07case(c GCase, a *run.Acc) {
 			inner := gd.Outside(nt, p)
 			return parser.Func(func(ctx *parsley.Context, lrc data.IntMap, pos parsley.Pos) (parsley.Node, data.IntSet, parsley.Error) {
 				n, cp, err := inner.Parse(ctx, lrc, pos)
+				m := gr.m
 				snapshot(fmt.Sprintf("N%d", nt), pos, n)
 				if cp.Len() == 0 {
 					// a complete (uncurtailed) answer: asking again at this position must give the same one
@@ -352,14 +384,35 @@ func c07case(c GCase, a *run.Acc) {
 					} else if was, now := m.str(first, false), m.str(n, false); was != now {
 						// both rendered in their current state: an in-place change of the first answer is
 						// monitor 1's business, here the two answers themselves must agree
-						m.conflict = append(m.conflict, fmt.Sprintf("N%d at offset %d answered %s and later %s", nt, int(pos)-env.Base, was, now))
+						m.conflict = append(m.conflict, fmt.Sprintf("N%d at offset %d answered %s and later %s", nt, int(pos)-gr.base, was, now))
 					}
 				}
 				return n, cp, err
 			})
 		},
 	}
-	b := gram.Build(c.G, h)
+	gr.b = gram.Build(c.G, h)
+	return gr
+}
+
+func c07case(c GCase, a *run.Acc) {
+	if !a.Begin() {
+		return
+	}
+	a.Count("cases", 1)
+	env := gram.NewEnvAt(c.In, c.Before())
+	m := &c07monitor{base: env.Base, in: c.In, touched: map[string]bool{}, complete: map[[2]int]parsley.Node{}, leafShared: map[string]bool{}}
+	var gr *c07graph
+	if run.Hash(c.G.String())%2 == 0 && c07cache != nil && c07cache.g == c.G && c07cache.memo == fmt.Sprint(c.MemoExpr) {
+		gr = c07cache
+		a.Count("parses on a parser graph that was built for an earlier input", 1)
+	} else {
+		gr = c07build(c)
+		c07cache = gr
+	}
+	gr.gd.Reset(env.Base)
+	gr.m, gr.base = m, env.Base
+	gd, b := gr.gd, gr.b
 	o := gram.Run(env, b.NTs[c.NT], c.Pos)
 	a.Count("probe_events", int64(gd.Events))
 	// after this case's parse: the previous case's results must still read as they did when they were returned
